@@ -1955,3 +1955,130 @@ pub fn c19_length_delimited(nd: &mut Nondet) {
         }
     }
 }
+
+// ------------------------------------------------------------------------------------------ C15 one step of next_action from an arbitrary state
+/// C15 (inductive form): `FindNodeContext::next_action` from any context state built over 4 peers with ordered
+/// distances: every peer is unknown / candidate / pending (fresh or timed out) / answered / failed.
+pub fn c15_find_node_step(nd: &mut Nondet) {
+    const N: usize = 4;
+    let net = small_network(nd, N);
+    let replication = nd.usize("replication");
+    assume(replication >= 1 && replication <= 3);
+    let parallelism = nd.usize("parallelism");
+    assume(parallelism >= 1 && parallelism <= 3);
+    let target = Key::from_bytes_verif(key_bytes(0), nd.peer_id("target"));
+    let config = FindNodeConfig { local_peer_id: net.local, replication_factor: replication, parallelism_factor: parallelism, query: QueryId(0), target: target.clone() };
+    // roles: 0 unknown, 1 candidate, 2 pending (fresh), 3 pending (past the peer timeout), 4 answered, 5 failed
+    let mut role = [0u64; N];
+    let mut candidates = VecDeque::new();
+    for i in 0..N {
+        role[i] = nd.choose("role", 6);
+        if role[i] != 0 { assume(net.ids[i] != net.local); }   // the local node is filtered before it gets any role
+        if role[i] == 1 { candidates.push_back(net.peers[i].clone()); }
+    }
+    let mut ctx = FindNodeContext::new(config, candidates);
+    let now = Instant::now();
+    let mut answered: Vec<usize> = Vec::new();
+    for i in 0..N {
+        match role[i] {
+            2 => { ctx.pending.insert(net.ids[i], (net.peers[i].clone(), now)); }
+            3 => { ctx.pending.insert(net.ids[i], (net.peers[i].clone(), now - Duration::from_secs(3600))); }
+            4 => { ctx.queried.insert(net.ids[i]); answered.push(i); }
+            5 => { ctx.queried.insert(net.ids[i]); }
+            _ => {}
+        }
+    }
+    // representation invariant of `responses`: the `replication` closest answered peers (distances are ordered by index)
+    for (n, i) in answered.iter().enumerate() {
+        if n < replication { ctx.responses.insert(target.distance(&net.peers[*i].key_verif().clone()), net.peers[*i].clone()); }
+    }
+    ctx.rebuild_accounting_verif();
+
+    let n_candidates = role.iter().filter(|r| **r == 1).count();
+    let n_pending = role.iter().filter(|r| **r == 2 || **r == 3).count();
+    let n_fresh = role.iter().filter(|r| **r == 2).count();
+    let n_responses = std::cmp::min(answered.len(), replication);
+    // invariant of reachable states (requests are only issued below the limit; the k-step unit checks it on real histories)
+    assume(n_fresh <= parallelism);
+    let first_candidate = (0..N).find(|i| role[*i] == 1);
+    let furthest_response = if n_responses > 0 { Some(net.dists[answered[n_responses - 1]]) } else { None };
+
+    match ctx.next_action() {
+        Some(QueryAction::SendMessage { peer, .. }) => {
+            cover("c15s.send");
+            check("c15s.sends-to-the-closest-candidate", first_candidate.map(|i| net.ids[i]) == Some(peer));
+            check("c15s.never-contacts-local", peer != net.local);
+            check("c15s.fresh-in-flight-below-parallelism-before-sending", n_fresh < parallelism);
+            let useful = n_responses < replication || match (first_candidate, furthest_response) { (Some(i), Some(f)) => net.dists[i] < f, _ => false };
+            check("c15s.only-useful-requests", useful);
+        }
+        None => {
+            cover("c15s.wait");
+            // waiting is right at the parallelism limit, or when nothing is left to ask but answers are outstanding
+            check("c15s.waits-only-at-the-parallelism-limit-or-without-candidates", n_fresh == parallelism || (n_candidates == 0 && n_pending > 0));
+            check("c15s.waits-only-with-work-left", n_pending > 0 || n_candidates > 0);
+        }
+        Some(QueryAction::QuerySucceeded { .. }) => {
+            cover("c15s.succeeded");
+            check("c15s.success-needs-a-response", n_responses > 0);
+            let done = n_pending == 0 && n_candidates == 0;
+            // every learned peer closer than the furthest reported one has been contacted
+            let closer_candidate = match (first_candidate, furthest_response) { (Some(i), Some(f)) => net.dists[i] < f, _ => false };
+            check("c15s.success-only-when-no-closer-candidate-is-left", done || (n_responses >= replication && !closer_candidate));
+        }
+        Some(QueryAction::QueryFailed { .. }) => {
+            cover("c15s.failed");
+            check("c15s.failure-only-when-nothing-is-left-and-nobody-answered", n_pending == 0 && n_candidates == 0 && n_responses == 0);
+        }
+        Some(_) => check("c15s.unexpected-action", false),
+    }
+}
+
+// ------------------------------------------------------------------------------------------ C01 identity binding of the Noise handshake
+use litep2p::crypto::ed25519::Keypair;
+use litep2p::crypto::noise::verif_hooks as noise_hooks;
+
+/// C01 (kernel): a peer id is reported only for an identity key that signed *this session's* static DH key.
+pub fn c01_identity_binding(nd: &mut Nondet) {
+    let alice = Keypair::generate();
+    let bob = Keypair::generate();
+    let blob_of = |kp: &Keypair| litep2p::crypto::PublicKey::Ed25519(kp.public()).to_protobuf_encoding();
+    // the static DH key of this session and the one a signature was made for (first byte solver-chosen)
+    let mut dh = [7u8; 32];
+    dh[0] = nd.u8("session_dh");
+    let mut dh_signed = [7u8; 32];
+    dh_signed[0] = nd.u8("signed_dh");
+    let mut message = b"noise-libp2p-static-key:".to_vec();
+    message.extend_from_slice(&dh_signed);
+
+    let id_case = nd.choose("identity", 4);
+    let identity = match id_case {
+        0 => None,
+        1 => Some(blob_of(&alice)),
+        2 => { let mut b = blob_of(&alice); b.pop(); Some(b) }     // malformed key
+        _ => Some(blob_of(&bob)),
+    };
+    let sig_case = nd.choose("signature", 5);
+    let signature = match sig_case {
+        0 => None,
+        1 => Some(alice.sign(&message)),
+        2 => Some(bob.sign(&message)),
+        3 => Some(vec![9u8; 64]),                                     // forged bytes
+        _ => Some(alice.sign(&dh_signed)),                            // signature without the domain separator
+    };
+    let got = noise_hooks::parse_and_verify(identity, signature, &dh);
+    let bound = dh_signed == dh;
+    let expected = if id_case == 1 && sig_case == 1 && bound { Some(PeerId::from_public_key(&litep2p::crypto::PublicKey::Ed25519(alice.public()))) }
+                   else if id_case == 3 && sig_case == 2 && bound { Some(PeerId::from_public_key(&litep2p::crypto::PublicKey::Ed25519(bob.public()))) }
+                   else { None };
+    match got {
+        Some(p) => {
+            cover("c01.authenticated");
+            check("c01.peer-reported-only-for-a-key-that-signed-this-session", expected == Some(p));
+        }
+        None => {
+            cover("c01.refused");
+            check("c01.honest-identity-is-accepted", expected.is_none());
+        }
+    }
+}
